@@ -100,7 +100,7 @@ class Acc:
         bad = np.argwhere(ratio > 1)
         if len(bad):
             self.n["bad_" + check] += len(bad)
-            b = tuple(bad[0])
+            b = tuple(int(x) for x in bad[0])
             where = b if mask is None else tuple(int(a[b[0]]) for a in idx)
             if jmap is not None:
                 where = tuple(where[:-1]) + (int(jmap[where[-1]]),)
